@@ -384,6 +384,13 @@ def check(chk):
     wr_ = [n.id for n, c in rcfg_.calls_named("_write_machine_vars_to_disk")]
     chk.need(dl_, "FLOW-6", "remove_machine_var deletes the variable", rmv)
     w_ = rcfg_.must_pass(dl_[0].id, wr_) if wr_ else [dl_[0].id]
+    rms = repo.func(MV, "MachineVariables.remove_machine_var_search")
+    chk.analysed(rms)
+    mcfg_ = rms.cfg()
+    wr2_ = [n.id for n, c in mcfg_.calls_named("_write_machine_vars_to_disk")]
+    w2_ = mcfg_.must_pass(mcfg_.entry.id, wr2_) if wr2_ else [mcfg_.entry.id]
+    chk.ob("FLOW-6", "a removal by pattern rewrites the persisted set on every path (whatever the last removed variable was)", w2_ is None, rms.where(), construct=rms.ident,
+           text="pattern removal persisted", path=mcfg_.fmt_path(w2_, rms) if w2_ and len(w2_) > 1 else None)
     chk.ob("FLOW-6", "after a variable was removed the whole persisted set is written again on every path", w_ is None, rmv.where(dl_[0].ast), construct=rmv.ident,
            detail="the removed variable would come back at the next boot", text="removal persisted")
 
@@ -450,6 +457,7 @@ def expiry_restart_is_written(chk, repo, rule="FLOW-6"):
 def battery():
     from sa.battery import M
     return [
+        M("pattern removal written only when the last match was persistent", "mpf/core/machine_vars.py", "                del self.machine_vars[var]\n\n        self._write_machine_vars_to_disk()", "                persisted = self.machine_vars.pop(var)['persist']\n\n        if persisted:\n            self._write_machine_vars_to_disk()", "FLOW-6"),
         M("a leftover temp file blocks every later save", "mpf/core/file_manager.py", "            temp_file = os.path.dirname(filename) + os.sep + \"_\" + os.path.basename(filename)\n", "            temp_file = os.path.dirname(filename) + os.sep + \"_\" + os.path.basename(filename)\n            if os.path.exists(temp_file):\n                raise AssertionError(\"busy\")\n", "PAIR-17"),
         M("target removed before the temp file is moved in", "mpf/core/file_manager.py", "            os.replace(temp_file, filename)", "            if os.path.exists(filename):\n                os.remove(filename)\n            os.rename(temp_file, filename)", "PAIR-17"),
         M("removed variable not removed on disk", "mpf/core/machine_vars.py", "            del self.machine_vars[name]\n            self._write_machine_vars_to_disk()", "            del self.machine_vars[name]\n            self._write_machine_var_to_disk(name)", "FLOW-6"),
